@@ -34,8 +34,13 @@ static void p_roundtrip(const GDoc &d, pbt::Ctx &ctx)
   std::vector<Node> model;
   pr.doc(d, model);
   XMLDoc doc;
-  Outcome o = readBytes(pr.out, doc);
-  PBT_ASSERT_MSG(o == RETURNED, "a document of the supported subset was rejected:\n" << pr.out);
+  const int via = (d.style / 16) % 4;
+  std::string usedPath;
+  Outcome o = readBytes(pr.out, doc, via, &usedPath);
+  static const char *VIA[] = {"path", "symbolic link", "/proc/self/fd/N", "path with // and ./"};
+  PBT_ASSERT_MSG(o == RETURNED, "a document of the supported subset was rejected (file named by its " << VIA[via] << "):\n" << pr.out);
+  if (via)
+    ctx.label(std::string("file named by ") + VIA[via]);
   PBT_ASSERT_MSG(doc.child.size() == model.size(), "top level: " << doc.child.size() << " nodes, want " << model.size() << "\n" << pr.out);
   size_t depth = 0, props = 0, contents = 0;
   for (size_t i = 0; i < model.size(); ++i) {
@@ -44,7 +49,7 @@ static void p_roundtrip(const GDoc &d, pbt::Ctx &ctx)
     props += countProps(model[i]);
     contents += countContent(model[i]);
   }
-  PBT_ASSERT(doc.fileName.str() == scratchFile());
+  PBT_ASSERT(doc.fileName.str() == usedPath);
   ctx.nt(depth >= 2 && props >= 1 && (pr.comments >= 1 || contents >= 1));
   if (d.header)
     ctx.label("header");
@@ -110,11 +115,79 @@ static void p_total(const MutCase &c, pbt::Ctx &ctx)
     ctx.label("some-rejected");
 }
 
+// ---------------------------------------------------------------- documents of 2 GiB and more (thorough tier)
+// The reader sizes the file with a 64-bit ftell and reads it in one piece; nothing in "every byte sequence given as a file"
+// stops at 2^31.  One document per process: <scene id="7"> <!-- 2^31 + d bytes of filler --> <mesh/> text </scene>.
+static void huge_document(const std::pair<int, int> &cs, pbt::Ctx &ctx)
+{
+  if (!cs.first) {
+    ctx.label("skipped (thorough tier only)");
+    return;
+  }
+  static bool ran = false;
+  if (ran) {
+    ctx.label("skipped (once per process)");
+    return;
+  }
+  ran = true;
+  silenceCout();
+  const size_t filler = ((size_t)1 << 31) + (size_t)(cs.second % 3) * 4095 + 17;
+  FILE *f = fopen(scratchFile().c_str(), "wb");
+  if (!f)
+    throw pbt::Failure{"harness: cannot create scratch file"};
+  const std::string head = "<?xml version=\"1.0\"?>\n<scene id=\"7\" name='big'><!--", tail = "--><mesh kind=\"tri\"/>payload text</scene>\n";
+  bool ok = fwrite(head.data(), 1, head.size(), f) == head.size();
+  std::string block((size_t)1 << 20, 'x');
+  for (size_t i = 0; i < block.size(); i += 97)
+    block[i] = '\n';
+  for (size_t left = filler; ok && left > 0;) {
+    size_t n = std::min(left, block.size());
+    ok = fwrite(block.data(), 1, n, f) == n;
+    left -= n;
+  }
+  ok = ok && fwrite(tail.data(), 1, tail.size(), f) == tail.size();
+  ok = fclose(f) == 0 && ok;
+  if (!ok) {
+    unlink(scratchFile().c_str());
+    ctx.label("skipped (no room for a 2 GiB scratch file)");
+    return;
+  }
+  XMLDoc doc;
+  bool threw = false;
+  std::string what;
+  try {
+    doc = rkcommon::xml::readXML(scratchFile());
+  } catch (const std::runtime_error &e) {
+    threw = true;
+    what = e.what();
+  } catch (const std::bad_alloc &) {
+    unlink(scratchFile().c_str());
+    ctx.label("skipped (no memory for a 2 GiB document)");
+    return;
+  }
+  unlink(scratchFile().c_str());
+  PBT_ASSERT_MSG(!threw, "a valid document of " << filler + head.size() + tail.size() << " bytes was rejected: " << what);
+  PBT_ASSERT_MSG(doc.child.size() == 1 && doc.child[0].name == "scene", "huge document: wrong top level");
+  const Node &n = doc.child[0];
+  PBT_ASSERT_MSG(n.getProp("id") == "7" && n.getProp("name") == "big", "huge document: properties of <scene> lost");
+  PBT_ASSERT_MSG(n.child.size() == 1 && n.child[0].name == "mesh" && n.child[0].getProp("kind") == "tri", "huge document: child <mesh> lost");
+  PBT_ASSERT_MSG(n.content == "payload text", "huge document: content is '" << n.content.substr(0, 40) << "'");
+  ctx.label("document >= 2 GiB");
+  ctx.nt(true);
+}
+static int hugeEnabled()
+{
+  const char *tier = getenv("PBT_TIER");
+  return tier && std::string(tier) == "thorough" ? 1 : 0;
+}
+
 static void register_properties()
 {
   using namespace rc;
   pbt::property<GDoc>("tree_roundtrip", 4000, genDoc(), p_roundtrip);
   auto mut = gen::pair(pbt::range<int>(0, 100000), gen::weightedOneOf<int>({{3, gen::element<int>('<', '>', '"', '\'', '/', '!', '-', '?', '=', 0, '\\', ' ')}, {1, pbt::range<int>(0, 255)}}));
+  pbt::property<std::pair<int, int>>("huge_document", 1, gen::pair(gen::just(hugeEnabled()), pbt::range<int>(0, 2)), huge_document);
+  pbt::registry().back()->noShrink = true;
   pbt::property<MutCase>("prefixes_and_mutations", 400, gen::build<MutCase>(gen::set(&MutCase::doc, genDoc()), gen::set(&MutCase::muts, pbt::vec(mut, 12))), p_total);
 }
 PBT_MAIN("C16_xml")
